@@ -202,13 +202,22 @@ def construct(cls_name, kwargs):
     return {'cls': cls_name, 'args': {n: abstract(v) for n, v in kwargs.items()} or {'_': {'t': 'none'}}, 'out': out}
 
 
-def set_then_marshal(cls_name, kwargs, arg, v, ch=1):
-    """valid construction, attribute changed afterwards, then frame.marshal"""
+def set_then_marshal(cls_name, kwargs, arg, v, ch=1, between=False):
+    """valid construction, attribute changed afterwards, then frame.marshal; with between: two other (valid)
+    frames, built BEFORE the mutation, are marshalled between the mutation and the marshal"""
     from abstraction import class_by_name
+    from pamqp import commands
     k = class_by_name(cls_name)
     o = k(**kwargs)
+    others = [commands.Basic.Ack(7, True), commands.Queue.Declare(queue='ok')] if between else []
     setattr(o, arg, v)
-    fin = a_frame(o)
+    for other in others:
+        frame.marshal(other, 3)
+    if between:
+        fin = {'cls': cls_name, 'vals': {n: abstract(kwargs.get(n, getattr(o, n))) if n != arg else abstract(v)
+                                            for n in type(o).__slots__}}
+    else:
+        fin = a_frame(o)
     try:
         out = {'r': 'ok', 'b': list(frame.marshal(o, ch))}
     except Exception as e:  # noqa
@@ -259,6 +268,15 @@ def observe(o):
         ev['probes'] = probes
         ev['contains_probe'] = [bool(p in o) for p in probes]
         ev['getitem'] = [abstract(o[n]) for n in names]
+        # overlapping iterations over the SAME instance are independent of each other
+        z = list(zip(o, o))
+        ev['zip_first'] = [str(a[0]) for a, b in z]
+        ev['zip_second'] = [str(b[0]) for a, b in z]
+        ev['nested'] = as_int(sum(1 for _a in o for _b in o))
+        it = iter(o)
+        head = [str(next(it)[0])] if names else []
+        dict(o)
+        ev['partial'] = head + [str(x[0]) for x in it]
         ev['attributes'] = [str(x) for x in k.attributes()]
         ev['types'] = [str(k.amqp_type(n)) for n in names]
         ev['r'] = 'ok'
